@@ -377,6 +377,7 @@ func (p *Party) Close() {
 // Close shuts the whole world down.
 func (e *Env) Close() {
 	e.Bus.ReleaseAll()
+	e.Bus.Shutdown()
 	e.mu.Lock()
 	ps := append([]*Party{}, e.parties...)
 	e.mu.Unlock()
